@@ -435,6 +435,7 @@ type RecvSpec struct {
 }
 
 type SpecFunc struct {
+	Macro  bool // `spec macro`: expanded in the environment (heap, old heap) of each use
 	Name   string
 	Params []QVar
 	Ret    string
@@ -673,10 +674,16 @@ func parseContractFile(path string) (*ContractFile, error) {
 			}
 		case "spec":
 			// spec func name(a int, b ref) int [= expr]
-			r := strings.TrimSpace(strings.TrimPrefix(strings.TrimSpace(rest), "func"))
+			r := strings.TrimSpace(rest)
+			isMacro := strings.HasPrefix(r, "macro")
+			r = strings.TrimSpace(strings.TrimPrefix(strings.TrimPrefix(r, "macro"), "func"))
 			sf, err := parseSpecFunc(r)
 			if err != nil {
 				return nil, fmt.Errorf("%s:%d: %v", path, rc.line, err)
+			}
+			sf.Macro = isMacro
+			if isMacro && sf.Body == nil {
+				return nil, fmt.Errorf("%s:%d: spec macro needs a body", path, rc.line)
 			}
 			cf.SpecFuncs = append(cf.SpecFuncs, sf)
 			curSF = sf
